@@ -90,26 +90,48 @@ def check(pid, tier, seed, machine, mc_cfg, gen_cfg, trace_module, adapter, sig,
     if variants:
         for it in items:
             it.update(variants[it["id"] % len(variants)])
-    traces = pool.map_items(adapter, adapter_fn, items, **({'fresh_every': 1, 'chunksize': 1, 'initname': None} if fresh_process else {}))
-    lap('replay')
-    # 4 monitor
-    bad, judged = monitor.judge(trace_module, traces, run.work + "/mon")
-    by_id = {t["id"]: t for t in traces}
-    for tid, step, clause in bad:
-        t = by_id[tid]
-        run.violation(sig(t, step, clause), "%s fails at step %d of trace %s: %s" % (
-            clause, step, tid, json.dumps(t["steps"][step - 1]["a"]) if step else "initial state"),
-            {"adapter": adapter, "fn": adapter_fn, "id": t["id"], "actions": [s["a"] for s in t["steps"][:max(step, 1)]],
-             "variant": (variants[t["id"] % len(variants)] if variants else {}), "failing_step": step, "clause": clause})
-    lap('monitor')
-    # 5 canary
-    canary = None
-    for t in traces:
-        if t["steps"] and t["id"] not in {b[0] for b in bad}:
-            c = corrupt(copy.deepcopy(t))
-            if c is not None:
-                canary = c
-                break
+    # replay, monitor and evidence in batches: the traces of a thorough tour do not fit in memory together
+    BATCH = 20000
+    bad_all, judged, canary, n_traces, steps = [], 0, None, 0, 0
+    nt, samples = set(), {}
+    want = {0: "first", len(t_items) // 2: "middle", len(items) - 1: "last"}
+    for b0 in range(0, max(len(items), 1), BATCH):
+        part = items[b0:b0 + BATCH]
+        traces = pool.map_items(adapter, adapter_fn, part, **({'fresh_every': 1, 'chunksize': 1, 'initname': None} if fresh_process else {}))
+        # 4 monitor
+        bad, j = monitor.judge(trace_module, traces, run.work + "/mon")
+        judged += j
+        bad_all += bad
+        by_id = {t["id"]: t for t in traces}
+        for tid, step, clause in bad:
+            t = by_id[tid]
+            run.violation(sig(t, step, clause), "%s fails at step %d of trace %s: %s" % (
+                clause, step, tid, json.dumps(t["steps"][step - 1]["a"]) if step else "initial state"),
+                {"adapter": adapter, "fn": adapter_fn, "id": t["id"], "actions": [s["a"] for s in t["steps"][:max(step, 1)]],
+                 "variant": (variants[t["id"] % len(variants)] if variants else {}), "failing_step": step, "clause": clause})
+        # 5 canary candidate
+        if canary is None:
+            rejected = {b[0] for b in bad}
+            for t in traces:
+                if t["steps"] and t["id"] not in rejected:
+                    c = corrupt(copy.deepcopy(t))
+                    if c is not None:
+                        canary = c
+                        break
+        # evidence
+        for t in traces:
+            pre = t["init"]
+            for s in t["steps"]:
+                steps += 1
+                if nontrivial is None or nontrivial(pre, s):
+                    nt.add(json.dumps([pre.get("list", pre), s["a"]], sort_keys=True) if nontrivial is None else nontrivial(pre, s))
+                pre = s["post"]
+            if t["id"] in want:
+                samples[t["id"]] = {"actions": t["steps"] and [s["a"] for s in t["steps"]], "final": t["steps"][-1]["post"] if t["steps"] else t["init"]}
+        n_traces += len(traces)
+        del traces, by_id
+    bad = bad_all
+    lap('replay+monitor')
     if canary is None and not bad:
         raise Machinery("no trace available for the canary")
     if canary is None:
@@ -122,23 +144,12 @@ def check(pid, tier, seed, machine, mc_cfg, gen_cfg, trace_module, adapter, sig,
     if not cbad:
         raise Machinery("canary: corrupted trace was accepted by the monitor - the binding is broken")
     lap('canary')
-    # evidence
-    nt = set()
-    steps = 0
-    for t in traces:
-        pre = t["init"]
-        for s in t["steps"]:
-            steps += 1
-            if nontrivial is None or nontrivial(pre, s):
-                nt.add(json.dumps([pre.get("list", pre), s["a"]], sort_keys=True) if nontrivial is None else nontrivial(pre, s))
-            pre = s["post"]
-    run.cov["traces_validated_against_impl"] += len(traces)
+    run.cov["traces_validated_against_impl"] += n_traces
     run.cov["evaluations"] += steps
     run.cov["distinct_nontrivial"] += len(nt)
     run.cov["exhaustive"] = bool(exh and run.cov.get("exhaustive", True))
     run.cov["rule"] = rule
-    run.cov["samples"] += [{"actions": traces[i]["steps"] and [s["a"] for s in traces[i]["steps"]], "final": traces[i]["steps"][-1]["post"] if traces[i]["steps"] else traces[i]["init"]}
-                           for i in (0, len(t_items) // 2, len(traces) - 1) if i < len(traces)][:3]
+    run.cov["samples"] += [samples[i] for i in sorted(samples)][:3]
     run.notes.setdefault("machines", {})[machine] = ({"model_states_toured": n_states, "model_transitions": len(all_items), "alphabet": len(alphabet), "tour_traces": len(t_items),
                       "random_walks": len(w_items), "walk_length": walk_len, "monitor_states_judged": judged,
                       "canary": "rejected with %s" % cbad[0][2], "phase_s": run.notes.pop("phase_s", {})})
